@@ -56,7 +56,7 @@ DomOK(e) ==
     [] e.op = "dict_from_str" -> TextOK(e.a[1])
     [] e.op \in {"from_text", "from_db"} -> AlphOK(e.a[1]) /\ AlphOK(e.a[2]) /\ TextOK(e.a[3])
     [] e.op = "std" -> AlphOK(e.a[1]) /\ TextOK(e.a[3]) /\ e.a[5] = StdName(e.a[4])
-    [] e.op = "pb_matrix" -> AlphOK(e.a[2]) /\ TextOK(e.a[1]) /\ InAlph(e.a[2], e.a[3]) /\ e.a[5] = StdName("pb")
+    [] e.op = "pb_matrix" -> AlphOK(e.a[2]) /\ TextOK(e.a[1]) /\ InAlph(e.a[2], e.a[3]) /\ e.a[6] = StdName("pb")
     [] e.op = "list_db" -> TRUE
     [] e.op = "get_score_by_code" -> Dom_Matrix(e.a[1]) /\ e.a[2] >= 0 /\ e.a[3] >= 0
     [] e.op \in {"get_score", "scores", "codes", "table", "is_symmetric", "transpose", "eq_foreign", "str",
